@@ -735,7 +735,7 @@ mod pipeline {
 
     use crate::communicate::{self, Communicator};
     use crate::os_common::ExitStatus;
-    use crate::popen::{Popen, Redirection, Result as PopenResult};
+    use crate::popen::{Popen, PopenError, Redirection, Result as PopenResult};
 
     use super::exec::{CaptureData, Exec, InputRedirection, OutputRedirection};
 
@@ -927,7 +927,16 @@ mod pipeline {
         /// to missing output), except for the ones for which
         /// `detached()` was called.  This is equivalent to what the
         /// shell does.
-        pub fn popen(mut self) -> PopenResult<Vec<Popen>> {
+        pub fn popen(self) -> PopenResult<Vec<Popen>> {
+            // the commands started before a failure are waited for here, by
+            // being dropped
+            self.popen_or_started().map_err(|(err, _started)| err)
+        }
+
+        // Like popen(), but a failure also hands back the commands started
+        // before it, so that a caller holding further pipe ends can release
+        // them before those commands are waited for.
+        fn popen_or_started(mut self) -> Result<Vec<Popen>, (PopenError, Vec<Popen>)> {
             self.check_no_stdin_data("popen");
             assert!(self.cmds.len() >= 2);
 
@@ -957,7 +966,10 @@ mod pipeline {
                 if idx != cnt - 1 {
                     runner = runner.stdout(Redirection::Pipe);
                 }
-                ret.push(runner.popen()?);
+                match runner.popen() {
+                    Ok(popen) => ret.push(popen),
+                    Err(err) => return Err((err, ret)),
+                }
             }
             Ok(ret)
         }
@@ -1016,7 +1028,17 @@ mod pipeline {
             self = self.stderr_to(err_write);
 
             let stdin_data = self.stdin_data.take();
-            let mut v = self.stdout(Redirection::Pipe).popen()?;
+            let mut v = match self.stdout(Redirection::Pipe).popen_or_started() {
+                Ok(v) => v,
+                Err((err, started)) => {
+                    // A command that is already running may be blocked
+                    // writing to the stderr pipe, which nobody reads yet:
+                    // close our end before the commands are waited for.
+                    drop(err_read);
+                    drop(started);
+                    return Err(err);
+                }
+            };
             let vlen = v.len();
 
             let comm = communicate::communicate(
